@@ -21,6 +21,16 @@ def queue_spec(seed):
         stations[0]["plugs"].append({"charger": "LEVEL_1" if plug != "LEVEL_1" else "LEVEL_2", "count": 1, "on_shift": False})
     stations.append({"id": "bs1", "lat": LAT0, "lon": LON0, "plugs": [{"charger": "LEVEL_2", "count": 1, "on_shift": False}]})
     steps = rnd.randint(160, 260)
+    bases = [{"id": "b1", "lat": LAT0, "lon": LON0, "station": "bs1", "stalls": 1}]
+    schedules = None
+    if seed % 5 == 4:
+        # two human drivers who are off shift for the whole run and cannot charge at home: the built-in driver logic sends
+        # them to the station and repeats that instruction every step while they wait
+        schedules = [{"id": "never", "start": 0, "end": 0}]
+        for j, v in enumerate(vehicles[:2]):
+            v["schedule"] = "never"
+            v["home_base"] = f"hb{j}"
+            bases.append({"id": f"hb{j}", "lat": round(LAT0 + 0.01 + 0.001 * j, 6), "lon": LON0, "station": None, "stalls": 1})
     return {
         "name": f"queue{seed}",
         "seed": seed,
@@ -28,11 +38,11 @@ def queue_spec(seed):
         "network": {"type": "euclidean"},
         "vehicles": vehicles,
         "stations": stations,
-        "bases": [{"id": "b1", "lat": LAT0, "lon": LON0, "station": "bs1", "stalls": 1}],
+        "bases": bases,
         "requests": [],
         "prices": None,
         "rate": None,
-        "schedules": None,
+        "schedules": schedules,
         "fleets": None,
         # a small battery so that sessions end (and plugs are granted) often; it still needs many steps to fill
         "mechatronics": {
@@ -59,7 +69,7 @@ def build_cases(tier, seed):
     for i in range(n):
         s = seed * 100000 + 18000 + i
         spec, steps = queue_spec(s)
-        ctrl = {"stack": ["ChargingFleetManager", {"benign_queue": {"p_leave": [0.0, 0.03, 0.08][i % 3], "p_abandon": [0.0, 0.02, 0.05][(i // 3) % 3]}}]}
+        ctrl = {"stack": ["ChargingFleetManager", {"benign_queue": {"p_leave": [0.0, 0.03, 0.08][i % 3], "p_abandon": [0.0, 0.02, 0.05][(i // 3) % 3], "p_resend": [0.0, 0.0, 0.3, 0.6][i % 4]}}]}
         cases.append(trace_case("C18", i, s, {}, ctrl, steps, ["C18"], spec=spec, opts=({"cosim_ops": {"every": 12, "kinds": ["append_plugs"]}} if i % 4 == 3 else {})))
     return cases
 
